@@ -1260,6 +1260,9 @@ func runScenarios(c *vf.Ctx, skip map[string]bool, race bool) {
 
 // child modes: "conc" <plain|race> <skip,skip,...>  |  "conc-one" <def> <cfg> <seed> <n>
 func child(c *vf.Ctx) {
+	if discChild(c) {
+		return
+	}
 	switch c.Child {
 	case "conc":
 		race := len(c.ChildArgs) > 0 && c.ChildArgs[0] == "race"
